@@ -24,21 +24,22 @@ EXTENDS EduceRun
 \* "wide" : <'a, 'b: 'a, T: ?Sized + Bnd, const N: usize = 2, U: Bnd = u8> where &'b T: Usr, U: Usr, [u8; N]: Sized
 \*          (a lifetime bound, an unsized type parameter with two bounds, a defaulted const and a defaulted type
 \*           parameter, a where-clause over compound types)
-GenDescs == {"TU", "rich", "wide"}
-TypeParamsOf(g) == CASE g = "TU" -> <<"T", "U">> [] g = "rich" -> <<"T">> [] OTHER -> <<"T", "U">>
+\* "lc"   : <'a, const N: usize>   (no type parameter at all: an item that is generic over a lifetime and a const only)
+GenDescs == {"TU", "rich", "wide", "lc"}
+TypeParamsOf(g) == CASE g = "TU" -> <<"T", "U">> [] g = "rich" -> <<"T">> [] g = "lc" -> <<>> [] OTHER -> <<"T", "U">>
 ImplParamsOf(g) ==                                                                     \* defaults dropped
-  CASE g = "TU" -> <<"T", "U">> [] g = "rich" -> <<"'a", "constN:usize", "T:Bnd">>
+  CASE g = "TU" -> <<"T", "U">> [] g = "rich" -> <<"'a", "constN:usize", "T:Bnd">> [] g = "lc" -> <<"'a", "constN:usize">>
     [] OTHER -> <<"'a", "'b:'a", "T:?Sized+Bnd", "constN:usize", "U:Bnd">>
-UserWhereOf(g)  == CASE g = "TU" -> {} [] g = "rich" -> {"T:Usr"} [] OTHER -> {"&'bT:Usr", "U:Usr", "[u8;N]:Sized"}
+UserWhereOf(g)  == CASE g = "TU" -> {} [] g = "rich" -> {"T:Usr"} [] g = "lc" -> {} [] OTHER -> {"&'bT:Usr", "U:Usr", "[u8;N]:Sized"}
 
 \* ---------------------------------------------------------------- field type classes
 \* text of the field type (spaces removed) and whether it implements a trait, given which of the type
 \* parameters do (a = [T |-> BOOLEAN, U |-> BOOLEAN])
 PhantomAllText(g) ==
-  CASE g = "TU" -> "PhantomData<(T,U)>" [] g = "rich" -> "PhantomData<&'a[T;N]>" [] OTHER -> "PhantomData<(&'au8,&'bT,[U;N])>"
+  CASE g = "TU" -> "PhantomData<(T,U)>" [] g = "rich" -> "PhantomData<&'a[T;N]>" [] g = "lc" -> "PhantomData<&'a[u8;N]>" [] OTHER -> "PhantomData<(&'au8,&'bT,[U;N])>"
 TyText(ty) ==
   CASE ty = "T" -> "T" [] ty = "U" -> "U" [] ty = "WrapT" -> "Wrap<T>" [] ty = "PhantomT" -> "PhantomData<T>"
-    [] ty = "RefT" -> "&'bT" [] ty = "ArrT" -> "[T;2]" [] ty = "Arr0T" -> "[T;0]" [] ty = "PairTU" -> "(T,U)" [] ty = "conc" -> "u8" [] ty = "PhantomAll" -> "PhantomAll" [] ty = "A" -> "TA"
+    [] ty = "RefT" -> "&'bT" [] ty = "ArrN" -> "[u8;N]" [] ty = "ArrT" -> "[T;2]" [] ty = "Arr0T" -> "[T;0]" [] ty = "PairTU" -> "(T,U)" [] ty = "conc" -> "u8" [] ty = "PhantomAll" -> "PhantomAll" [] ty = "A" -> "TA"
     [] OTHER -> ty
 \* (tr: the trait asked of the field type.  Arrays implement a trait when their element does -- except that the empty
 \*  array is Default whatever its element is)
